@@ -58,7 +58,7 @@ PROPS = {
         pin_filter=r'awaitLoops|coroutineCmds|tick|queueShapes',
         tie_filter=r'promise(Insert|Update)|callback|taskInsert|taskCompleteByRootId|shape|wiring|uniques',
         harness=[sysdiff('sysdiff-crashes', ['CreatePromise', 'CreatePromiseAndTask', 'CompletePromise', 'CreateCallback', 'CreateSubscription', 'ReadPromise', 'ClaimTask', 'CompleteTask'],
-                         (25, 150), (600, 200), 'C01,C05,C08,C07', ['-routed', '50', '-fail', '15', '-crash', '6', '-smallcfg', '-known', 'F5'], (200, 150)),
+                         (25, 150), (600, 200), 'C01,C05,C08,C07', ['-routed', '50', '-fail', '15', '-crash', '6', '-smallcfg', '-known', 'F5,F20'], (200, 150)),
                  dict(bin='crashdiff', name='crashdiff', quick=['-rounds', '2', '-kills', '3'], thorough=['-rounds', '25', '-kills', '6'], search=['-rounds', '8', '-kills', '5']),
                  dict(bin='txedge', name='txedge', quick=['-steps', '8'], thorough=['-steps', '60', '-callbacks', '150000'], search=['-steps', '24'])],
         rule=SYS_RULE + '; here 6% of the steps are a crash/restart (a new system.System and store object on the same sqlite file, volatile state dropped), so crashes fall before and after '
@@ -91,7 +91,7 @@ PROPS = {
         pin_filter=r'awaitLoops|coroutineCmds|tick|queueShapes',
         tie_filter=r'task|promiseInsert|promiseUpdate|callback|shape|wiring|uniques',
         harness=[sysdiff('sysdiff-dispatch', ['CreatePromise', 'CreatePromise', 'CreatePromiseAndTask', 'CompletePromise', 'ClaimTask', 'CompleteTask', 'CreateCallback', 'CreateSubscription', 'HeartbeatTasks'],
-                         (30, 150), (800, 200), 'C08,C07,C05,C12', ['-routed', '70', '-fail', '20', '-crash', '1', '-smallcfg', '-known', 'F5'], (250, 200)),
+                         (30, 150), (800, 200), 'C08,C07,C05,C12', ['-routed', '70', '-fail', '20', '-crash', '1', '-smallcfg', '-known', 'F5,F20'], (250, 200)),
                  storediff('storediff-tasks', TASK_KINDS + ['CreatePromise', 'UpdatePromise', 'CreateCallback', 'DeleteCallbacks'], (20, 30), (500, 40)),
                  dict(bin='routesend', name='routesend', quick=['-cases', '1500'], thorough=['-cases', '20000'], search=['-cases', '6000'])],
         rule='routesend: the REAL router decides which promises are routed (a promise whose tag names a receiver is born with its invocation task only if the router matches it): every tag shape against the model and against two direct clauses (plain strings are logical names, receiver objects are physical receivers); ' + SYS_RULE + '; mixes of routed / unrouted promises (routing tags: logical names, URLs, JSON receivers, non-receiver JSON), callbacks and subscriptions; every hand-off outcome (success / refused / error), router failures, store failures, task batch sizes 1..100; monitors: a routed promise is created with its invocation task, a completed promise leaves none of its previous tasks live, C07 task monotonicity, C05',
@@ -155,11 +155,11 @@ PROPS = {
         pin_filter=r'awaitLoops|coroutineCmds|tick|queueShapes',
         tie_filter=r'callback|taskInsertAll|taskCompleteByRootId|promiseUpdate|promiseSelect_|shape|wiring|uniques',
         harness=[sysdiff('sysdiff-callbacks', ['ReadPromise', 'CreatePromise', 'CompletePromise', 'CreateCallback', 'CreateSubscription', 'SearchPromises'],
-                         (30, 120), (600, 150), 'C05,C01,C04', ['-routed', '20', '-fail', '15', '-crash', '2', '-known', 'F5'], (200, 150)),
+                         (30, 120), (600, 150), 'C05,C01,C04', ['-routed', '20', '-fail', '15', '-crash', '2', '-known', 'F5,F20'], (200, 150)),
                  sysdiff('sysdiff-callbacks-focus', ['ReadPromise', 'CreatePromise', 'CompletePromise', 'CreateCallback', 'CreateSubscription'], (15, 60), (500, 80), 'C05,C01',
-                         ['-focus', '-fail', '5', '-known', 'F5'], (300, 80)),
+                         ['-focus', '-fail', '5', '-known', 'F5,F20'], (300, 80)),
                  sysdiff('sysdiff-callbacks-collide', ['CreatePromise', 'CompletePromise', 'CreateCallback', 'CreateSubscription'], (25, 150), (500, 200), 'C05,C01',
-                         ['-hostile', '-routed', '0', '-fail', '3', '-crash', '0', '-known', 'F5'], (300, 200)),
+                         ['-hostile', '-routed', '0', '-fail', '3', '-crash', '0', '-known', 'F5,F20'], (300, 200)),
                  storediff('storediff-callbacks', ['CreatePromise', 'UpdatePromise', 'CreateCallback', 'DeleteCallbacks', 'CreateTasks', 'CompleteTasks', 'ReadTask', 'ReadPromise'], (20, 30), (500, 40))],
         rule=SYS_RULE + '; the C05 monitor (every registration awaits a pending promise; a promise completed in a batch had every registration turned into exactly one identical task) runs on every committed batch of the implementation; sysdiff-callbacks-collide draws promise, root and subscription ids whose derived registration ids collide (root a + promise b:c and root a:b + promise c both give __resume:a:b:c; likewise __notify:a:b:c), so that a completion meets a task that already carries its registration\'s id',
         assumptions=['completion requests carry a state in {resolved, rejected, canceled} (front-end validation)'],
@@ -275,7 +275,7 @@ PROPS = {
         pin_filter=r'sites|awaitLoops|coroutineCmds|tick|queueShapes',
         tie_filter=r'shape|wiring|uniques|Insert_row|_where',
         harness=[dict(bin='frontdiff', name='frontdiff', quick=['-facts', '{gen}/gofacts.json'], thorough=['-facts', '{gen}/gofacts.json'], search=['-facts', '{gen}/gofacts.json']),
-                 sysdiff('sysdiff-hostile', None, (20, 120), (500, 150), 'C01,C05,C08', ['-routed', '50', '-hostile', '-fail', '10', '-crash', '2', '-known', 'F5'], (150, 150)),
+                 sysdiff('sysdiff-hostile', None, (20, 120), (500, 150), 'C01,C05,C08', ['-routed', '50', '-hostile', '-fail', '10', '-crash', '2', '-known', 'F5,F20'], (150, 150)),
                  dict(bin='routesend', name='routesend', quick=['-cases', '2000'], thorough=['-cases', '20000'], search=['-cases', '6000'])],
         rule='frontdiff malformed family: 80 malformed requests over every endpoint of both protocols (fields absent, empty, null, negative, huge, wrongly typed, truncated JSON, '
              'unclosed templates, bogus cron, self-referencing callback, and search cursors FORGED with the constant signing key carrying null / empty id / limit 0 / negative limit) '
